@@ -52,11 +52,13 @@ if __name__ == '__main__':
     a = ap.parse_args()
     if getattr(a, 'only', None) or getattr(a, 'caps', None):
         os.environ['VERIF_PARTIAL'] = '1'
-    rule = ('one obligation = (type, sign, digit count, variant): the solver decides exact text/length/footprint/round-trip for every value of the decade and every group character '
-            '(E1: CBMC on 8/16/32-bit types; E2-int: irsym with the bit-vector queries decided over the integers for the 64-bit types and the std::string variants)')
-    rep = Report('C13', a.tier)
-    run_units('C13', a.tier, e1_units(a.tier, a.only), rule, ['E1 covers the buffer variants of the 8/16/32-bit types'], rep=rep, finish=False)
-    run_e2('C13', a.tier, e2_units(a.tier, a.only), rule, ['E2-int: wrap-around semantics of every bit-vector operation are kept by explicit mod 2^k; cross-checked against bit-blasting on the short decades',
-                                                            'std::string variants of the 8/16/32-bit types are covered only through the shared convert() kernels'], rep=rep, finish=False,
-           classify=lambda v: v['msg'] if v['kind'] == 'assert' else v['kind'] + ': ' + re.sub(r'\d+', 'N', v['msg'])[:100])
-    sys.exit(rep.finish(rule))
+    def run_all():
+        rule = ('one obligation = (type, sign, digit count, variant): the solver decides exact text/length/footprint/round-trip for every value of the decade and every group character '
+                '(E1: CBMC on 8/16/32-bit types; E2-int: irsym with the bit-vector queries decided over the integers for the 64-bit types and the std::string variants)')
+        rep = Report('C13', a.tier)
+        run_units('C13', a.tier, e1_units(a.tier, a.only), rule, ['E1 covers the buffer variants of the 8/16/32-bit types'], rep=rep, finish=False)
+        run_e2('C13', a.tier, e2_units(a.tier, a.only), rule, ['E2-int: wrap-around semantics of every bit-vector operation are kept by explicit mod 2^k; cross-checked against bit-blasting on the short decades',
+                                                                'std::string variants of the 8/16/32-bit types are covered only through the shared convert() kernels'], rep=rep, finish=False,
+               classify=lambda v: v['msg'] if v['kind'] == 'assert' else v['kind'] + ': ' + re.sub(r'\d+', 'N', v['msg'])[:100])
+        return rep.finish(rule)
+    sys.exit(guarded_main(run_all))
